@@ -215,6 +215,11 @@ _mg(f"{RMG}._create_no_import_other_than_between_original_subject_and_objects_me
 
 
 _compose(RMG, "", ANY_MOD)
+# the six abstract dispatchers of the base class (bodies: pass); implemented by RuleViolationMessageGenerator (contracts above), inherited by the layer generator
+for _fn in ("_create_should_import_violated_messages", "_create_should_only_import_violated_messages", "_create_should_not_import_violated_messages",
+            "_create_should_import_except_violated_messages", "_create_should_only_import_except_violated_messages", "_create_should_not_import_except_violated_messages"):
+    _mg(f"{BASE}.{_fn}", status="abstract", params=dict(self=RMG, rule_violations="RuleViolations"), returns="Bag[RVM]", impl_of=None,
+        note=f"abstract method; implementation under contract: {RMG}.{_fn}")
 _OPQ2 = ["noimp_match", "noimp_sound"]
 
 # ---------------------------------------------------------------- group 4: the matcher side (rule_matcher.py): which generator renders the text raised by match
